@@ -1128,6 +1128,10 @@ mod store {
                 "precreate-data" => { std::fs::File::create(dir.path().join(format!("{}.bitcask.data", p[1]))).unwrap(); }
                 "precreate-hint" => { std::fs::File::create(dir.path().join(format!("{}.bitcask.hint", p[1]))).unwrap(); }
                 "remove-data" => { let _ = std::fs::remove_file(dir.path().join(format!("{}.bitcask.data", p[1]))); }
+                // read-path faults (C20): a data file damaged behind the store's back; a get that needs it must FAIL, never answer
+                "truncate-data" => { if let Ok(f) = std::fs::OpenOptions::new().write(true).open(dir.path().join(format!("{}.bitcask.data", p[1]))) { let _ = f.set_len(p[2].parse().unwrap()); } had_fault = true; }
+                "geterr" if !crate::want("C20") => {}
+                "geterr" => { had_fault = true; match h.get(b(p[1])) { Err(_) => {}, Ok(v) => report(label, "C20", &hist, format!("op {} `get {}` returned Ok({:?}) although the file holding the entry is gone / cut; files {:?}", i, p[1], v.map(|x| String::from_utf8_lossy(&x).to_string()), files(dir.path())), "an error") } }
                 "remove-hint" => { let _ = std::fs::remove_file(dir.path().join(format!("{}.bitcask.hint", p[1]))); }
                 "checkall" => { for (k, v) in model.iter() { if alt.contains_key(k) { continue; } let got = h.get(b(k)).map(|o| o.map(|v| String::from_utf8_lossy(&v).to_string()));
                     match got { Ok(Some(g)) if &g == v => {}, _ if !crate::want(rp) => {}, other => report(label, rp, &hist, format!("op {} checkall: key {} reads {:?}; files {:?}", i, k, other, files(dir.path())), v) } } }
@@ -1173,6 +1177,9 @@ mod store {
             // a rollover that fails (the next file already exists), the obstacle is removed, the operation is retried (C20)
             (0, "all", "set a 1; precreate-data 2; del a; remove-data 2; !del a; checkstats; get a; !set a 2; checkstats; get a; reopen; checkall; checkstats"),
             (0, "all", "set a 1; set b 1; precreate-data 3; set a 2; remove-data 3; !set a 3; checkstats; !del a; checkstats; !del b; checkstats; get a; get b"),
+            // read-path faults: the file holding `a` is removed behind the store's back (an `open` that fails with NotFound); reads of `a` must fail, reads of other keys must keep working
+            (0, "all", "set a 1; set b 2; set c 3; remove-data 0; geterr a; get b; geterr a; get c; get b"),
+            (0, "all-cache0", "set a 1; set b 2; get a; remove-data 0; geterr a; get b"),
             // a set whose rollover fails leaves its entry in the file (reported as failed); an acknowledged delete afterwards must hold across a restart
             (0, "all", "set a 1; precreate-data 2; set k 1; remove-data 2; !del k; get k; !set b 1; reopen; get k; get b; checkall"),
             // partial merge: an old file keeps a stale record of `a` (1 of 3 dead: not selected) while the file holding its live record is merged
@@ -1183,6 +1190,15 @@ mod store {
         for (max, mode, ops) in curated.iter() {
             let v: Vec<&str> = ops.split(';').map(|s| s.trim()).collect();
             run_history(*max, mode, &v, "history");
+        }
+        // one data file far larger than the 8 KiB read buffer (entries straddle every buffer boundary), then a reopen
+        {
+            let mut ops: Vec<String> = Vec::new();
+            for i in 0..420u32 { let k = format!("k{}", i % 37); if i % 11 == 10 { ops.push(format!("del {}", k)); } else { ops.push(format!("set {} v{}{}", k, i, "p".repeat((i % 53) as usize))); } }
+            ops.push("checkall".into()); ops.push("reopen".into()); ops.push("checkall".into()); ops.push("checkstats".into()); ops.push("merge".into()); ops.push("checkall".into()); ops.push("checkhints".into()); ops.push("checkall".into());
+            let v: Vec<&str> = ops.iter().map(|s| s.as_str()).collect();
+            run_history(1 << 20, "all", &v, "history");
+            run_history(8192, "all", &v, "history");
         }
         // small and large values of the same key alternating (a layer that treats values by size must not remember the wrong one)
         {
@@ -1233,7 +1249,7 @@ mod store {
             let v: Vec<&str> = ops.iter().map(|s| s.as_str()).collect();
             run_history(max, mode, &v, "history");
         }
-        println!("{{\"found\": false, \"searched\": \"18 curated (three with a failing rollover, one merge whose selection has a gap, one with a reader cache of capacity 0, two with values of 1 B / 3 KB / 70 KB alternating), 40 pseudo-random histories with full merges and 24 with partial merges (no deletes), (set/del/get/merge/reopen over 3 keys, max_file_size in 0,40,100,1M) against the map model incl. per-file live-key and dead-byte accounting\"}}");
+        println!("{{\"found\": false, \"searched\": \"22 curated (three with a failing rollover, two with a data file removed under the store, two with 420 operations in files larger than the read buffer, one merge whose selection has a gap, one with a reader cache of capacity 0, two with values of 1 B / 3 KB / 70 KB alternating), 40 pseudo-random histories with full merges and 24 with partial merges (no deletes), (set/del/get/merge/reopen over 3 keys, max_file_size in 0,40,100,1M) against the map model incl. per-file live-key and dead-byte accounting\"}}");
     }
 
     /// C18 (bounded, real time): the background tasks of the real store with a 25 ms check interval.
